@@ -147,13 +147,754 @@ Proof.
             first [ injection Ht0 as <-; subst t; rewrite nth_error_mid; eexists; split; [reflexivity|reflexivity]
                   | destruct (H2 _ Ht0) as (th0 & Hn0 & Hh0);
                     destruct (Nat.eq_dec t0 (length l1)) as [->|Hne];
-                    [ rewrite nth_error_mid in Hn0 |- *; injection Hn0 as <-; cbn in Hh0; try discriminate;
-                      eexists; split; [reflexivity|reflexivity]
-                    | rewrite (nth_error_mid_neq _ _ _ _ _ Hne) in Hn0; eauto ] ]).
+                    [ rewrite nth_error_mid in Hn0; injection Hn0 as <-; cbn in Hh0; try discriminate;
+                      rewrite nth_error_mid; eexists; split; reflexivity
+                    | erewrite (nth_error_mid_neq _ _ _ _ _ Hne); eexists; split; [exact Hn0|exact Hh0] ] ]).
   all: try (intros w0; specialize (H5 w0)).
-  all: onorm; try destruct fin as [[? []]|]; cbn [b2n valp holds curp map fst cnt filter snd length trues] in *.
+  all: onorm; try destruct fin as [[? []]|]; cbn [b2n valp holds curp map fst cnt filter snd length] in *; unfold trues in *; cbn [filter snd length] in *.
   all: try (destruct mt; lia).
   all: try lia.
   all: try (intros Hp; first [exfalso; lia | apply H3; lia | reflexivity]).
-  all: try (eqs; lia).
-  Show.
+  all: try (unfold b2n in *; eqs; lia).
+Qed.
+
+(* ------------------------------------------------------------------------------------------ *)
+(* Part 2: facts about single steps of the embedded event, by the shape of the stepping thread *)
+
+Module E := EventV1.
+
+Lemma set_nth_length {A} t (x : A) l : length (E.set_nth t x l) = length l.
+Proof. revert t; induction l as [|y r IH]; intros [|t]; cbn; auto. Qed.
+
+Lemma nth_set_nth_eq {A} t (x : A) l : t < length l -> nth_error (E.set_nth t x l) t = Some x.
+Proof. revert t; induction l as [|y r IH]; intros [|t] H; cbn in *; try lia; auto. apply IH. lia. Qed.
+
+Lemma nth_set_nth_neq {A} t t' (x : A) l : t' <> t -> nth_error (E.set_nth t x l) t' = nth_error l t'.
+Proof. revert t t'; induction l as [|y r IH]; intros [|t] [|t'] H; cbn; auto; try congruence. Qed.
+
+Lemma nth_error_lt {A} (l : list A) t a : nth_error l t = Some a -> t < length l.
+Proof. intros H. apply nth_error_Some. congruence. Qed.
+
+(* a step of thread t touches only thread t of the thread list *)
+Lemma estep_frame t e e' evs :
+  E.step t e = Some (e', evs) ->
+  length (E.thr e') = length (E.thr e) /\
+  (forall t', t' <> t -> nth_error (E.thr e') t' = nth_error (E.thr e) t') /\
+  (exists eth', nth_error (E.thr e') t = Some eth').
+Proof.
+  unfold E.step. destruct (nth_error (E.thr e) t) as [th|] eqn:En; [|discriminate].
+  pose proof (nth_error_lt _ _ _ En) as Hlt.
+  assert (G : forall b (x : E.st), E.thr x = E.set_nth t b (E.thr e) ->
+     length (E.thr x) = length (E.thr e) /\
+     (forall t', t' <> t -> nth_error (E.thr x) t' = nth_error (E.thr e) t') /\
+     (exists eth', nth_error (E.thr x) t = Some eth')).
+  { intros b x ->. rewrite set_nth_length. split; [reflexivity|]. split.
+    - intros t' Hne. apply nth_set_nth_neq; auto.
+    - eexists. apply nth_set_nth_eq; auto. }
+  destruct (E.tpc th) as [|w c|p rest].
+  - destruct (E.prog th) as [|[| | |w] r]; [discriminate| | | |].
+    + intros [= <- _]. eapply G. reflexivity.
+    + destruct (E.top e); intros [= <- _]; eapply G; reflexivity.
+    + intros [= <- _]. eapply G. reflexivity.
+    + destruct (E.top e); intros [= <- _]; eapply G; reflexivity.
+  - destruct (E.ptr_eqb (E.top e) c); [|destruct (E.top e)]; intros [= <- _]; eapply G; reflexivity.
+  - destruct p as [| |pw]; [discriminate|discriminate|].
+    intros [= <- _]. eapply G. reflexivity.
+Qed.
+
+Definition eth_set : E.thread := {| E.prog := [E.CSet]; E.tpc := E.PIdle |}.
+Definition eth_reset : E.thread := {| E.prog := [E.CReset]; E.tpc := E.PIdle |}.
+Definition eth_wait (w : nat) : E.thread := {| E.prog := [E.CWait w]; E.tpc := E.PIdle |}.
+Definition eth_cas (w : nat) (c : E.ptr) : E.thread := {| E.prog := []; E.tpc := E.PCas w c |}.
+Definition eth_pop (p : E.ptr) (r : list nat) : E.thread := {| E.prog := []; E.tpc := E.PPop p r |}.
+
+Definition popping (eth : E.thread) : Prop := exists p r, eth = eth_pop p r.
+
+Lemma estep_set t e e' evs :
+  nth_error (E.thr e) t = Some eth_set -> E.step t e = Some (e', evs) ->
+  E.is_sig (E.top e') = true /\
+  exists eth', nth_error (E.thr e') t = Some eth' /\ (eth' = ev_idle \/ popping eth').
+Proof.
+  intros Hn. pose proof (nth_error_lt _ _ _ Hn) as Hlt. unfold E.step. rewrite Hn. cbn.
+  intros [= <- _]. cbn. split; [reflexivity|].
+  eexists. split; [apply nth_set_nth_eq; auto|].
+  destruct (E.top e); [left; reflexivity|left; reflexivity|right; eexists; eexists; reflexivity].
+Qed.
+
+Lemma estep_pop t e e' evs p r :
+  nth_error (E.thr e) t = Some (eth_pop p r) -> E.step t e = Some (e', evs) ->
+  E.top e' = E.top e /\
+  exists eth', nth_error (E.thr e') t = Some eth' /\ (eth' = ev_idle \/ popping eth').
+Proof.
+  intros Hn. pose proof (nth_error_lt _ _ _ Hn) as Hlt. unfold E.step. rewrite Hn. cbn.
+  destruct p as [| |pw]; [discriminate|discriminate|].
+  intros [= <- _]. cbn. split; [reflexivity|].
+  eexists. split; [apply nth_set_nth_eq; auto|].
+  destruct (E.nxt e pw); [left; reflexivity|right; eexists; eexists; reflexivity|right; eexists; eexists; reflexivity].
+Qed.
+
+Lemma estep_wait t e e' evs w :
+  nth_error (E.thr e) t = Some (eth_wait w) -> E.step t e = Some (e', evs) ->
+  E.top e' = E.top e /\
+  exists eth', nth_error (E.thr e') t = Some eth' /\ (eth' = ev_idle \/ exists c, eth' = eth_cas w c).
+Proof.
+  intros Hn. pose proof (nth_error_lt _ _ _ Hn) as Hlt. unfold E.step. rewrite Hn. cbn.
+  destruct (E.top e) eqn:Et; intros [= <- _]; cbn; (split; [reflexivity|]);
+    eexists; (split; [apply nth_set_nth_eq; auto|]);
+    [right; eexists; reflexivity|left; reflexivity|right; eexists; reflexivity].
+Qed.
+
+Lemma estep_cas t e e' evs w c :
+  nth_error (E.thr e) t = Some (eth_cas w c) -> c <> E.PSig -> E.step t e = Some (e', evs) ->
+  E.is_sig (E.top e') = E.is_sig (E.top e) /\
+  exists eth', nth_error (E.thr e') t = Some eth' /\ (eth' = ev_idle \/ exists c', eth' = eth_cas w c').
+Proof.
+  intros Hn Hc. pose proof (nth_error_lt _ _ _ Hn) as Hlt. unfold E.step. rewrite Hn. cbn.
+  destruct (E.ptr_eqb (E.top e) c) eqn:Eq.
+  - apply ptr_eqb_eq in Eq. intros [= <- _]; cbn. split.
+    + rewrite Eq. destruct c; cbn; congruence.
+    + eexists. split; [apply nth_set_nth_eq; auto|]. left; reflexivity.
+  - destruct (E.top e) eqn:Et; intros [= <- _]; cbn; (split; [reflexivity|]);
+      eexists; (split; [apply nth_set_nth_eq; auto|]);
+      [right; eexists; reflexivity|left; reflexivity|right; eexists; reflexivity].
+Qed.
+
+Lemma estep_reset t e e' evs :
+  nth_error (E.thr e) t = Some eth_reset -> E.step t e = Some (e', evs) ->
+  nth_error (E.thr e') t = Some ev_idle /\ E.resumed e' = E.resumed e /\
+  (E.is_sig (E.top e) = true -> E.top e' = E.PNull) /\
+  (E.is_sig (E.top e) = false -> E.top e' = E.top e).
+Proof.
+  intros Hn. pose proof (nth_error_lt _ _ _ Hn) as Hlt. unfold E.step. rewrite Hn. cbn.
+  destruct (E.top e) eqn:Et; intros [= <- _]; cbn; repeat split; auto;
+    try (apply nth_set_nth_eq; auto); try discriminate.
+Qed.
+
+(* steps never forget a resumption *)
+Lemma estep_resumed_mono t e e' evs w :
+  E.step t e = Some (e', evs) -> is_resumed w e = true -> is_resumed w e' = true.
+Proof.
+  intros H Hr. unfold is_resumed in *. rewrite (step_resumes _ _ _ _ H).
+  rewrite existsb_app, Hr. apply orb_true_r.
+Qed.
+
+(* ------------------------------------------------------------------------------------------ *)
+(* injecting a command into an idle event thread                                              *)
+
+Lemma flat_map_set_nth {A} (f : A -> list nat) w t a b l :
+  nth_error l t = Some a ->
+  cnt w (flat_map f (E.set_nth t b l)) + cnt w (f a) = cnt w (flat_map f l) + cnt w (f b).
+Proof.
+  revert t; induction l as [|y r IH]; intros [|t] H; cbn in *; try discriminate.
+  - injection H as ->. rewrite !cnt_app. lia.
+  - rewrite !cnt_app. specialize (IH _ H). lia.
+Qed.
+
+Lemma Forall_set_nth {A} (P : A -> Prop) t b l : Forall P l -> P b -> Forall P (E.set_nth t b l).
+Proof.
+  intros H Hb. revert t; induction H as [|y r Hy Hr IH]; intros [|t]; cbn; constructor; auto.
+Qed.
+
+Definition cmd_waits (c : E.cmd) : list nat := match c with E.CWait w => [w] | _ => [] end.
+
+Lemma total_inject w t c e :
+  nth_error (E.thr e) t = Some ev_idle ->
+  total w (inject t c e) = total w e + cnt w (cmd_waits c).
+Proof.
+  intros Hn. unfold total, future, inflight, pending, inject; cbn [E.thr E.stk E.resumed].
+  pose proof (flat_map_set_nth th_future w t ev_idle {| E.prog := [c]; E.tpc := E.PIdle |} _ Hn) as H1.
+  pose proof (flat_map_set_nth th_inflight w t ev_idle {| E.prog := [c]; E.tpc := E.PIdle |} _ Hn) as H2.
+  pose proof (flat_map_set_nth th_pending w t ev_idle {| E.prog := [c]; E.tpc := E.PIdle |} _ Hn) as H3.
+  unfold th_future, th_inflight, th_pending in *. cbn in H1, H2, H3.
+  assert (Hc : cnt w (waits_of [c]) = cnt w (cmd_waits c)).
+  { destruct c; cbn; lia. }
+  unfold waits_of in Hc. cbn in Hc. rewrite app_nil_r in *. lia.
+Qed.
+
+Lemma inject_inv1 t c e :
+  nth_error (E.thr e) t = Some ev_idle -> Inv1 e ->
+  (forall w, total w e + cnt w (cmd_waits c) <= 1) -> Inv1 (inject t c e).
+Proof.
+  intros Hn (Htop & Hth & Htot) Hc. split; [exact Htop|]. split.
+  - unfold inject; cbn [E.thr E.nxt]. apply Forall_set_nth; [exact Hth|]. exact I.
+  - intros w. rewrite total_inject by exact Hn. apply Hc.
+Qed.
+
+Lemma inject_nth t c e :
+  t < length (E.thr e) ->
+  nth_error (E.thr (inject t c e)) t = Some {| E.prog := [c]; E.tpc := E.PIdle |} /\
+  (forall t', t' <> t -> nth_error (E.thr (inject t c e)) t' = nth_error (E.thr e) t') /\
+  length (E.thr (inject t c e)) = length (E.thr e).
+Proof.
+  intros Hlt. unfold inject; cbn [E.thr]. split; [apply nth_set_nth_eq; auto|]. split.
+  - intros t' Hne. apply nth_set_nth_neq; auto.
+  - apply set_nth_length.
+Qed.
+
+(* ------------------------------------------------------------------------------------------ *)
+(* the link invariant                                                                         *)
+
+Definition th_rel (p : pc) (eth : E.thread) : Prop :=
+  match p with
+  | AIdle | AUnlock _ | ASusp _ => eth = ev_idle
+  | ASetEv => eth = eth_set \/ popping eth
+  | AWaitEv w => exists c, eth = eth_cas w c
+  | AResetEv _ => eth = eth_reset
+  end.
+
+Definition sigv (s : st) : bool := E.is_sig (E.top (ev s)).
+
+Definition crel (sg : bool) (v : s3) (p : pc) (eth : E.thread) : Prop :=
+  match p with
+  | AResetEv _ => v = Unset /\ sg = true
+  | AUnlock (Some (_, true)) => v = Unset /\ sg = false
+  | ASetEv => v <> Unset /\ (E.prog eth = [] -> sg = true)
+  | _ => True
+  end.
+
+Definition special (p : pc) : bool :=
+  match p with ASetEv | AResetEv _ | AUnlock (Some (_, true)) => true | _ => false end.
+
+(* the header's invariant: event_ is ready iff state_ is SET or DONE *)
+Definition flag_ok (s : st) : Prop := sigv s = true <-> s3v s <> Unset.
+
+Definition LInv (W0 : list nat) (s : st) : Prop :=
+  length (E.thr (ev s)) = length (thr s) /\
+  (forall t th eth, nth_error (thr s) t = Some th -> nth_error (E.thr (ev s)) t = Some eth ->
+     th_rel (apc th) eth /\ crel (sigv s) (s3v s) (apc th) eth) /\
+  Inv1 (ev s) /\
+  (forall w, cnt w (afut s) + total w (ev s) = cnt w W0) /\
+  (pcount special (thr s) = 0 -> flag_ok s).
+
+Lemma special_holds p : special p = true -> holds p = true.
+Proof. destruct p as [| |[[? []]|]| | |]; cbn; auto; discriminate. Qed.
+
+Lemma crel_nonholder sg v p eth : holds p = false -> crel sg v p eth.
+Proof. destruct p as [| |[[? []]|]| | |]; cbn; auto; discriminate. Qed.
+
+Lemma pcount_zero_nth f l t th :
+  pcount f l = 0 -> nth_error l t = Some th -> f (apc th) = false.
+Proof.
+  revert t; induction l as [|y r IH]; intros [|t] H Hn; cbn in *; try discriminate.
+  - injection Hn as ->. destruct (f (apc th)); cbn in H; [lia|reflexivity].
+  - eapply IH; eauto. lia.
+Qed.
+
+Lemma pcount_mid_nth f l1 a l2 t th :
+  pcount f l1 = 0 -> pcount f l2 = 0 -> t <> length l1 ->
+  nth_error (l1 ++ a :: l2) t = Some th -> f (apc th) = false.
+Proof.
+  intros H1 H2 Hne Hn.
+  destruct (Nat.lt_ge_cases t (length l1)) as [Hlt|Hge].
+  - rewrite nth_error_app1 in Hn by exact Hlt. exact (pcount_zero_nth _ _ _ _ H1 Hn).
+  - rewrite nth_error_app2 in Hn by exact Hge.
+    destruct (t - length l1) as [|k] eqn:Ek; [lia|]. cbn in Hn. exact (pcount_zero_nth _ _ _ _ H2 Hn).
+Qed.
+
+Lemma pcount_special_le l : pcount special l <= pcount holds l.
+Proof.
+  induction l as [|th l IH]; cbn; [lia|].
+  destruct (special (apc th)) eqn:E; [rewrite (special_holds _ E)|]; cbn; lia.
+Qed.
+
+Lemma init_linv ready0 progs : LInv (all_nexts progs) (init ready0 progs).
+Proof.
+  unfold LInv. rewrite afut_init. unfold init; cbn [ev thr s3v]. split; [|split; [|split; [|split]]].
+  - cbn. rewrite !map_length. reflexivity.
+  - intros t th eth H1 H2. cbn in H2. rewrite map_map in H2.
+    apply nth_error_In in H1, H2. apply in_map_iff in H1 as (p & <- & _).
+    apply in_map_iff in H2 as (q & <- & _). cbn. auto.
+  - split; [|split].
+    + unfold top_ok; cbn. destruct ready0; reflexivity.
+    + cbn. rewrite map_map. apply Forall_forall. intros x Hx. apply in_map_iff in Hx as (q & <- & _). exact I.
+    + intros w. unfold total, future, inflight, pending; cbn. rewrite map_map.
+      assert (H : forall (f : E.thread -> list nat), f ev_idle = [] ->
+                flat_map f (map (fun _ : list cmd => ev_idle) progs) = []).
+      { intros f Hf. induction progs; cbn; auto. rewrite Hf. auto. }
+      change {| E.prog := []; E.tpc := E.PIdle |} with ev_idle.
+      rewrite !H by reflexivity. cbn. lia.
+  - intros w. unfold total, future, inflight, pending; cbn. rewrite map_map.
+    assert (H : forall (f : E.thread -> list nat), f ev_idle = [] ->
+              flat_map f (map (fun _ : list cmd => ev_idle) progs) = []).
+    { intros f Hf. induction progs; cbn; auto. rewrite Hf. auto. }
+    change {| E.prog := []; E.tpc := E.PIdle |} with ev_idle.
+    rewrite !H by reflexivity. cbn. lia.
+  - intros _. unfold flag_ok, sigv; cbn. destruct ready0; cbn; split; congruence.
+Qed.
+
+Lemma rel_others (sg sg' : bool) (v v' : s3) l1 a b l2 (el el' : list E.thread) :
+  (forall t th eth, nth_error (l1 ++ a :: l2) t = Some th -> nth_error el t = Some eth ->
+     th_rel (apc th) eth /\ crel sg v (apc th) eth) ->
+  (forall t', t' <> length l1 -> nth_error el' t' = nth_error el t') ->
+  ((sg' = sg /\ v' = v) \/ (pcount holds l1 = 0 /\ pcount holds l2 = 0)) ->
+  forall t th eth, t <> length l1 ->
+    nth_error (l1 ++ b :: l2) t = Some th -> nth_error el' t = Some eth ->
+    th_rel (apc th) eth /\ crel sg' v' (apc th) eth.
+Proof.
+  intros Hrel Hfr Hc t th eth Hne Hn He.
+  rewrite (nth_error_mid_neq _ b a _ _ Hne) in Hn. rewrite (Hfr _ Hne) in He.
+  destruct (Hrel _ _ _ Hn He) as [Hr Hcr]. split; [exact Hr|].
+  destruct Hc as [[-> ->]|[H1 H2]]; [exact Hcr|].
+  apply crel_nonholder. exact (pcount_mid_nth _ _ _ _ _ _ H1 H2 Hne Hn).
+Qed.
+
+Lemma ev_busy_nth t e eth : nth_error (E.thr e) t = Some eth -> ev_busy t e = negb (E.th_fin eth).
+Proof. intros H. unfold ev_busy. now rewrite H. Qed.
+
+Lemma step_linv ready0 W0 t s s' evs :
+  (forall w, cnt w W0 <= 1) -> OInv ready0 W0 s -> LInv W0 s ->
+  step t s = Some (s', evs) -> LInv W0 s'.
+Proof.
+  intros HW (O1 & O2 & O3 & O4 & O5) (Hlen & Hrel & HI1 & HE3 & Hfl) H.
+  ostep H.
+  all: pose proof (pcount_special_le l1) as Hs1; pose proof (pcount_special_le l2) as Hs2.
+  all: assert (Htl : length l1 < length (E.thr e))
+         by (rewrite Hlen, app_length; cbn; lia).
+  all: destruct (nth_error (E.thr e) (length l1)) as [eth|] eqn:Eeth;
+         [|apply nth_error_None in Eeth; lia].
+  all: destruct (Hrel (length l1) _ eth (nth_error_mid _ _ _) Eeth) as [Hr0 Hc0]; cbn [apc] in Hr0, Hc0.
+  all: subst t.
+  all: unfold LInv, flag_ok, sigv in *; cbn [ev mtx s3v thr results effs] in *.
+  all: rewrite ?pcount_app in *; cbn [pcount apc holds special b2n] in *.
+  (* lock steps that hand a command to the event *)
+  Ltac lock_inject c :=
+    match goal with
+    | Htl : length ?l1 < length (E.thr ?e), Hr0 : ?eth = ev_idle |- _ =>
+      subst eth;
+      destruct (inject_nth (length l1) c e Htl) as (Hin & Hio & Hil);
+      split; [rewrite Hil; match goal with H : length (E.thr e) = _ |- _ => rewrite H end;
+              rewrite !app_length; reflexivity|];
+      split; [intros t0 th0 eth0 Hn0 He0; destruct (Nat.eq_dec t0 (length l1)) as [->|Hne];
+              [ rewrite nth_error_mid in Hn0; injection Hn0 as <-; rewrite Hin in He0; injection He0 as <-
+              | eapply rel_others; [eassumption|exact Hio|right; lia|exact Hne|exact Hn0|exact He0] ]|];
+      [|split; [apply inject_inv1; [assumption|assumption|
+                 intros w0; match goal with H : Inv1 e |- _ => destruct H as (_ & _ & Ht); specialize (Ht w0) end;
+                 cbn [cmd_waits cnt]; lia]|];
+        split; [intros w0; rewrite total_inject by assumption; cbn [cmd_waits cnt];
+                match goal with H : forall w, cnt w (afut _) + _ = _ |- _ => specialize (H w0) end;
+                unfold afut in *; cbn [thr] in *; rewrite !flat_map_app in *; cbn [flat_map prog nexts_of app] in *;
+                rewrite ?cnt_app in *; lia|]]
+    end.
+  1: { cbn [th_rel] in Hr0. lock_inject E.CSet.
+       - cbn. split; [left; reflexivity|]. split; discriminate.
+       - intros Hsp; exfalso; lia. }
+  1: { cbn [th_rel] in Hr0. lock_inject E.CSet.
+       - cbn. split; [left; reflexivity|]. split; discriminate.
+       - intros Hsp; exfalso; lia. }
+  (* set() on a DONE event: lock and unlock only *)
+  1: { cbn [th_rel] in Hr0. subst eth.
+       split; [rewrite Hlen, !app_length; reflexivity|].
+       split; [intros t0 th0 eth0 Hn0 He0; destruct (Nat.eq_dec t0 (length l1)) as [->|Hne];
+               [ rewrite nth_error_mid in Hn0; injection Hn0 as <-; rewrite Eeth in He0; injection He0 as <-;
+                 cbn; auto
+               | eapply rel_others; [eassumption|reflexivity|left; split; reflexivity|exact Hne|exact Hn0|exact He0] ]|].
+       split; [assumption|].
+       split; [intros w0; specialize (HE3 w0); unfold afut in *; cbn [thr] in *; rewrite !flat_map_app in *;
+               cbn [flat_map prog nexts_of app] in *; rewrite ?cnt_app in *; lia|].
+       intros Hsp. apply Hfl. lia. }
+  1: { cbn [th_rel] in Hr0. lock_inject E.CSet.
+       - cbn. split; [left; reflexivity|]. split; discriminate.
+       - intros Hsp; exfalso; lia. }
+  (* next: the load of start_or_wait *)
+  Ltac afutn H w0 :=
+    specialize (H w0); unfold afut in *; cbn [thr] in *; rewrite !flat_map_app in *;
+    cbn [flat_map prog nexts_of app] in *; rewrite ?cnt_app in *; cbn [cnt] in *; rewrite ?cnt_app in *.
+  1,2: cbn [th_rel] in Hr0; subst eth;
+       destruct (inject_nth (length l1) (E.CWait w) e Htl) as (Hin & Hio & Hil);
+       assert (Hinj1 : Inv1 (inject (length l1) (E.CWait w) e))
+         by (apply inject_inv1; [assumption|assumption|
+             intros w0; pose proof (HW w0); afutn HE3 w0; cbn [cmd_waits cnt]; lia]);
+       destruct (estep_frame _ _ _ _ Est) as (Hfl1 & Hfo & _);
+       destruct (estep_wait _ _ _ _ _ Hin Est) as (Htop & eth' & Hn' & Hsh);
+       pose proof (ev_busy_nth _ _ _ Hn') as Hb; rewrite Ebusy in Hb;
+       (split; [rewrite Hfl1, Hil, Hlen, !app_length; reflexivity|]);
+       (split; [intros t0 th0 eth0 Hn0 He0; destruct (Nat.eq_dec t0 (length l1)) as [->|Hne];
+               [ rewrite nth_error_mid in Hn0; injection Hn0 as <-; rewrite Hn' in He0; injection He0 as <-;
+                 destruct Hsh as [->|[c ->]]; cbn in Hb; try discriminate; cbn; eauto
+               | eapply rel_others; [eassumption| |left; split; [rewrite Htop; reflexivity|reflexivity]|exact Hne|exact Hn0|exact He0];
+                 intros t' Hne'; rewrite (Hfo _ Hne'); apply Hio; exact Hne' ]|]);
+       (split; [eapply step_inv1; eauto|]);
+       (split; [intros w0; destruct Hinj1 as (A & B & C); rewrite (step_total _ _ _ _ A B Est w0);
+                rewrite total_inject by assumption; cbn [cmd_waits cnt]; afutn HE3 w0; lia|]);
+       intros Hsp; rewrite Htop; cbn [inject E.top]; apply Hfl; lia.
+  (* inside event_.set() *)
+  1,2: cbn [th_rel crel] in Hr0, Hc0; destruct Hc0 as [Hv Hsg];
+       destruct (estep_frame _ _ _ _ Est) as (Hfl1 & Hfo & _);
+       assert (Hx : E.is_sig (E.top e') = true /\
+                    exists eth', nth_error (E.thr e') (length l1) = Some eth' /\ (eth' = ev_idle \/ popping eth'))
+         by (destruct Hr0 as [->|(p & r & ->)];
+             [ exact (estep_set _ _ _ _ Eeth Est)
+             | destruct (estep_pop _ _ _ _ _ _ Eeth Est) as (Ht & X); split;
+               [rewrite Ht; apply Hsg; reflexivity|exact X] ]);
+       destruct Hx as (Hsig' & eth' & Hn' & Hsh);
+       pose proof (ev_busy_nth _ _ _ Hn') as Hb; rewrite Ebusy in Hb;
+       (split; [rewrite Hfl1, Hlen, !app_length; reflexivity|]);
+       (split; [intros t0 th0 eth0 Hn0 He0; destruct (Nat.eq_dec t0 (length l1)) as [->|Hne];
+               [ rewrite nth_error_mid in Hn0; injection Hn0 as <-; rewrite Hn' in He0; injection He0 as <-;
+                 destruct Hsh as [->|(p & r & ->)]; cbn in Hb; try discriminate; cbn;
+                 first [ split; [right; eexists; eexists; reflexivity | split; [exact Hv|intros _; exact Hsig']] | auto ]
+               | eapply rel_others; [eassumption|exact Hfo|right; split; destruct mt; lia|exact Hne|exact Hn0|exact He0] ]|]);
+       (split; [eapply step_inv1; eauto|]);
+       (split; [intros w0; destruct HI1 as (A & B & C); rewrite (step_total _ _ _ _ A B Est w0);
+                afutn HE3 w0; lia|]);
+       intros Hsp; first [exfalso; lia | rewrite Hsig'; split; [intros _; exact Hv|reflexivity]].
+  (* unlock *)
+  1: { cbn [th_rel] in Hr0; subst eth.
+       split; [rewrite Hlen, !app_length; reflexivity|].
+       split; [intros t0 th0 eth0 Hn0 He0; destruct (Nat.eq_dec t0 (length l1)) as [->|Hne];
+               [ rewrite nth_error_mid in Hn0; injection Hn0 as <-; rewrite Eeth in He0; injection He0 as <-;
+                 cbn; auto
+               | eapply rel_others; [eassumption|reflexivity|left; split; reflexivity|exact Hne|exact Hn0|exact He0] ]|].
+       split; [assumption|].
+       split; [intros w0; afutn HE3 w0; lia|].
+       intros Hsp. destruct fin as [[w1 [|]]|]; cbn in Hc0, Hfl, Hsp.
+       - destruct Hc0 as [-> Hs]. rewrite Hs. split; [discriminate|congruence].
+       - apply Hfl; lia.
+       - apply Hfl; lia. }
+  (* the CAS loop of start_or_wait *)
+  1,2: cbn [th_rel] in Hr0; destruct Hr0 as [c ->];
+       assert (Hc : c <> E.PSig)
+         by (destruct HI1 as (_ & B & _); rewrite Forall_forall in B;
+             specialize (B _ (nth_error_In _ _ Eeth)); unfold th_ok in B; cbn in B; tauto);
+       destruct (estep_frame _ _ _ _ Est) as (Hfl1 & Hfo & _);
+       destruct (estep_cas _ _ _ _ _ _ Eeth Hc Est) as (Hsig' & eth' & Hn' & Hsh);
+       pose proof (ev_busy_nth _ _ _ Hn') as Hb; rewrite Ebusy in Hb;
+       (split; [rewrite Hfl1, Hlen, !app_length; reflexivity|]);
+       (split; [intros t0 th0 eth0 Hn0 He0; destruct (Nat.eq_dec t0 (length l1)) as [->|Hne];
+               [ rewrite nth_error_mid in Hn0; injection Hn0 as <-; rewrite Hn' in He0; injection He0 as <-;
+                 destruct Hsh as [->|[c' ->]]; cbn in Hb; try discriminate; cbn; eauto
+               | eapply rel_others; [eassumption|exact Hfo|left; split; [exact Hsig'|reflexivity]|exact Hne|exact Hn0|exact He0] ]|]);
+       (split; [eapply step_inv1; eauto|]);
+       (split; [intros w0; destruct HI1 as (A & B & C); rewrite (step_total _ _ _ _ A B Est w0);
+                afutn HE3 w0; lia|]);
+       intros Hsp; rewrite Hsig'; apply Hfl; lia.
+  (* the continuation of a next: try_reset's lock *)
+  1: { cbn [th_rel] in Hr0; subst eth;
+       (split; [rewrite Hlen, !app_length; reflexivity|]);
+       (split; [intros t0 th0 eth0 Hn0 He0; destruct (Nat.eq_dec t0 (length l1)) as [->|Hne];
+               [ rewrite nth_error_mid in Hn0; injection Hn0 as <-; rewrite Eeth in He0; injection He0 as <-;
+                 cbn; auto
+               | eapply rel_others; [eassumption|reflexivity|left; split; reflexivity|exact Hne|exact Hn0|exact He0] ]|]);
+       (split; [assumption|]);
+       (split; [intros w0; afutn HE3 w0; lia|]);
+       intros Hsp; apply Hfl; lia. }
+  1: { cbn [th_rel] in Hr0. lock_inject E.CReset.
+       - cbn. split; [reflexivity|]. split; [reflexivity|]. apply Hfl; [lia|discriminate].
+       - intros Hsp; exfalso; lia. }
+  1: { cbn [th_rel] in Hr0; subst eth;
+       (split; [rewrite Hlen, !app_length; reflexivity|]);
+       (split; [intros t0 th0 eth0 Hn0 He0; destruct (Nat.eq_dec t0 (length l1)) as [->|Hne];
+               [ rewrite nth_error_mid in Hn0; injection Hn0 as <-; rewrite Eeth in He0; injection He0 as <-;
+                 cbn; auto
+               | eapply rel_others; [eassumption|reflexivity|left; split; reflexivity|exact Hne|exact Hn0|exact He0] ]|]);
+       (split; [assumption|]);
+       (split; [intros w0; afutn HE3 w0; lia|]);
+       intros Hsp; apply Hfl; lia. }
+  (* inside event_.reset() *)
+  1,2: cbn [th_rel crel] in Hr0, Hc0; subst eth; destruct Hc0 as [-> Hsg];
+       destruct (estep_frame _ _ _ _ Est) as (Hfl1 & Hfo & _);
+       destruct (estep_reset _ _ _ _ Eeth Est) as (Hn' & _ & Htop' & _);
+       pose proof (ev_busy_nth _ _ _ Hn') as Hb; rewrite Ebusy in Hb; cbn in Hb; try discriminate;
+       specialize (Htop' Hsg);
+       (split; [rewrite Hfl1, Hlen, !app_length; reflexivity|]);
+       (split; [intros t0 th0 eth0 Hn0 He0; destruct (Nat.eq_dec t0 (length l1)) as [->|Hne];
+               [ rewrite nth_error_mid in Hn0; injection Hn0 as <-; rewrite Hn' in He0; injection He0 as <-;
+                 cbn; rewrite Htop'; cbn; auto
+               | eapply rel_others; [eassumption|exact Hfo|right; split; destruct mt; lia|exact Hne|exact Hn0|exact He0] ]|]);
+       (split; [eapply step_inv1; eauto|]);
+       (split; [intros w0; destruct HI1 as (A & B & C); rewrite (step_total _ _ _ _ A B Est w0);
+                afutn HE3 w0; lia|]);
+       intros Hsp; exfalso; lia.
+Qed.
+
+(* ------------------------------------------------------------------------------------------ *)
+(* Part 3: all schedules                                                                      *)
+
+Definition AInv (ready0 : bool) (W0 : list nat) (s : st) : Prop := OInv ready0 W0 s /\ LInv W0 s.
+
+Lemma ainv_reachable ready0 progs sched :
+  NoDup (all_nexts progs) ->
+  AInv ready0 (all_nexts progs) (fst (run step sched (init ready0 progs, []))).
+Proof.
+  intros Hnd. pose proof (NoDup_cnt_le _ Hnd) as HW.
+  apply (run_invariant_state st nat aev step (AInv ready0 (all_nexts progs))).
+  - intros s t s' evs [HO HL] Hs. split; [eapply step_oinv; eauto|eapply step_linv; eauto].
+  - split; [apply init_oinv|apply init_linv].
+Qed.
+
+(* enabledness of the embedded event's steps, by thread shape *)
+Lemma estep_enabled t e eth :
+  nth_error (E.thr e) t = Some eth -> Forall (th_ok (E.nxt e)) (E.thr e) ->
+  eth = eth_set \/ eth = eth_reset \/ popping eth \/ (exists w c, eth = eth_cas w c) \/ (exists w, eth = eth_wait w) ->
+  E.step t e <> None.
+Proof.
+  intros Hn Hok Hsh. unfold E.step. rewrite Hn.
+  destruct Hsh as [->|[->|[(p & r & ->)|[(w & c & ->)|(w & ->)]]]]; cbn.
+  - discriminate.
+  - destruct (E.top e); discriminate.
+  - rewrite Forall_forall in Hok. specialize (Hok _ (nth_error_In _ _ Hn)).
+    unfold th_ok in Hok; cbn in Hok. destruct Hok as [Hl Hne].
+    destruct r as [|x r]; [congruence|]. cbn in Hl. destruct Hl as [-> _]. discriminate.
+  - destruct (E.ptr_eqb (E.top e) c); [discriminate|]. destruct (E.top e); discriminate.
+  - destruct (E.top e); discriminate.
+Qed.
+
+Lemma delegate_enabled t s e r d a : E.step t e <> None -> delegate t s e r d a <> None.
+Proof. unfold delegate. destruct (E.step t e) as [[e' evs]|]; [discriminate|congruence]. Qed.
+
+Definition can_step_spec (s : st) (t : nat) (th : thread) : Prop :=
+  match apc th with
+  | ASetEv | AResetEv _ | AUnlock _ | AWaitEv _ => step t s <> None
+  | AIdle =>
+      match prog th with
+      | [] => True
+      | ANext _ :: _ => step t s <> None
+      | _ => mtx s = None -> step t s <> None
+      end
+  | ASusp w => is_resumed w (ev s) = true -> mtx s = None -> step t s <> None
+  end.
+
+Lemma can_step W0 s t th :
+  LInv W0 s -> nth_error (thr s) t = Some th -> can_step_spec s t th.
+Proof.
+  intros (Hlen & Hrel & HI1 & _) Hn.
+  pose proof (nth_error_lt _ _ _ Hn) as Hlt. rewrite <- Hlen in Hlt.
+  destruct (nth_error (E.thr (ev s)) t) as [eth|] eqn:He; [|apply nth_error_None in He; lia].
+  destruct (Hrel _ _ _ Hn He) as [Hr _]. destruct HI1 as (_ & Hok & _).
+  unfold can_step_spec, step. rewrite Hn. destruct th as [pr p]; cbn [apc prog] in *.
+  destruct p as [| |fin|w|w|w]; cbn [th_rel] in Hr.
+  - destruct pr as [|[| |w] pr]; auto.
+    + intros ->. destruct (s3v s); discriminate.
+    + intros ->. discriminate.
+    + apply delegate_enabled.
+      destruct (inject_nth t (E.CWait w) (ev s) Hlt) as (Hin & _ & _).
+      eapply estep_enabled; [exact Hin| |right; right; right; right; eexists; reflexivity].
+      unfold inject; cbn [E.thr E.nxt]. apply Forall_set_nth; [exact Hok|exact I].
+  - apply delegate_enabled. eapply estep_enabled; eauto.
+    destruct Hr as [->|Hp]; [left; reflexivity|right; right; left; exact Hp].
+  - discriminate.
+  - apply delegate_enabled. eapply estep_enabled; eauto.
+    destruct Hr as [c ->]. right; right; right; left. eauto.
+  - intros -> ->. destruct (s3v s); discriminate.
+  - apply delegate_enabled. eapply estep_enabled; eauto.
+Qed.
+
+Lemma is_resumed_cnt w e : is_resumed w e = false -> cnt w (E.resumed e) = 0.
+Proof.
+  unfold is_resumed. induction (E.resumed e) as [|x r IH]; cbn; [reflexivity|].
+  rewrite Nat.eqb_sym. destruct (Nat.eqb x w); cbn; [discriminate|auto].
+Qed.
+
+Lemma flat_map_all_idle (f : E.thread -> list nat) l :
+  f ev_idle = [] -> (forall eth, In eth l -> eth = ev_idle) -> flat_map f l = [].
+Proof.
+  intros Hf H. induction l as [|x l IH]; cbn; [reflexivity|].
+  rewrite (H x (or_introl eq_refl)), Hf. cbn. apply IH. intros y Hy. apply H. now right.
+Qed.
+
+Lemma pcount_pos_nth f l t th : nth_error l t = Some th -> f (apc th) = true -> 1 <= pcount f l.
+Proof.
+  revert t; induction l as [|y r IH]; intros [|t] Hn Hf; cbn in *; try discriminate.
+  - injection Hn as ->. rewrite Hf. cbn. lia.
+  - specialize (IH _ Hn Hf). lia.
+Qed.
+
+(* A state in which no thread can move: every thread has finished its program, except nexts
+   that are suspended on the stack of an UNSET event with the mutex free. *)
+Theorem terminal_shape ready0 W0 s :
+  (forall w, cnt w W0 <= 1) -> AInv ready0 W0 s -> (forall t, step t s = None) ->
+  mtx s = None /\
+  forall t th, nth_error (thr s) t = Some th ->
+    th_fin th = true \/
+    exists w, apc th = ASusp w /\ In w (E.stk (ev s)) /\ ~ In w (E.resumed (ev s)) /\ s3v s = Unset.
+Proof.
+  intros HW [(O1 & O2 & O3 & O4 & O5) HL] Hterm.
+  pose proof HL as (Hlen & Hrel & HI1 & HE3 & Hfl).
+  assert (Hm : mtx s = None).
+  { destruct (mtx s) as [t0|] eqn:Em; [|reflexivity]. exfalso.
+    destruct (O2 _ eq_refl) as (th0 & Hn0 & Hh0).
+    pose proof (can_step _ _ _ _ HL Hn0) as Hc. unfold can_step_spec in Hc.
+    destruct (apc th0); cbn in Hh0; try discriminate; apply Hc; apply Hterm. }
+  split; [exact Hm|].
+  rewrite Hm in O1.
+  (* every thread is idle-finished or suspended *)
+  assert (Hq : forall t th, nth_error (thr s) t = Some th ->
+             th_fin th = true \/ exists w, apc th = ASusp w /\ is_resumed w (ev s) = false).
+  { intros t th Hn. pose proof (can_step _ _ _ _ HL Hn) as Hc. unfold can_step_spec in Hc.
+    pose proof (pcount_zero_nth _ _ _ _ O1 Hn) as Hh.
+    unfold th_fin. destruct (apc th) as [| |fin|w|w|w] eqn:Ep; cbn in Hh; try discriminate.
+    - destruct (prog th) as [|[| |w] pr]; [left; reflexivity| | |]; exfalso; apply Hc; auto.
+    - exfalso. apply Hc, Hterm.
+    - right. exists w. split; [reflexivity|].
+      destruct (is_resumed w (ev s)) eqn:Er; [|reflexivity]. exfalso. apply Hc; auto. }
+  (* hence every thread of the embedded event is idle *)
+  assert (Hidle : forall eth, In eth (E.thr (ev s)) -> eth = ev_idle).
+  { intros eth Hin. apply In_nth_error in Hin as [t He].
+    pose proof (nth_error_lt _ _ _ He) as Hlt. rewrite Hlen in Hlt.
+    destruct (nth_error (thr s) t) as [th|] eqn:Hn; [|apply nth_error_None in Hn; lia].
+    destruct (Hrel _ _ _ Hn He) as [Hr _].
+    destruct (Hq _ _ Hn) as [Hf|(w & Ep & _)].
+    - unfold th_fin in Hf. destruct (prog th); [|discriminate].
+      destruct (apc th); try discriminate. exact Hr.
+    - rewrite Ep in Hr. exact Hr. }
+  intros t th Hn. destruct (Hq _ _ Hn) as [Hf|(w & Ep & Er)]; [left; exact Hf|right].
+  exists w. split; [exact Ep|].
+  assert (Hstk : cnt w (E.stk (ev s)) = 1).
+  { specialize (O5 w). specialize (HE3 w). pose proof (HW w) as HWw.
+    assert (1 <= pcount (curp w) (thr s)).
+    { eapply pcount_pos_nth; [exact Hn|]. rewrite Ep. cbn. apply Nat.eqb_refl. }
+    unfold total, future, inflight, pending in HE3.
+    rewrite !flat_map_all_idle in HE3 by (try reflexivity; exact Hidle).
+    rewrite (is_resumed_cnt _ _ Er) in HE3. cbn in HE3. lia. }
+  assert (Hin : In w (E.stk (ev s))) by (apply cnt_In; lia).
+  split; [exact Hin|]. split; [apply cnt_notin; apply is_resumed_cnt; exact Er|].
+  assert (Hsp : pcount special (thr s) = 0) by (pose proof (pcount_special_le (thr s)); lia).
+  specialize (Hfl Hsp). unfold flag_ok, sigv in Hfl.
+  destruct HI1 as (Htop & _ & _). unfold top_ok in Htop.
+  destruct (E.top (ev s)) eqn:Et; cbn in Hfl.
+  - destruct (s3v s); [reflexivity| |]; (assert (X : false = true) by (apply Hfl; discriminate); discriminate).
+  - rewrite Htop in Hin. destruct Hin.
+  - destruct (s3v s); [reflexivity| |]; (assert (X : false = true) by (apply Hfl; discriminate); discriminate).
+Qed.
+
+(* the auxiliary counter effs is bounded by the set() calls made *)
+Definition is_aset (c : cmd) : bool := match c with ASet => true | _ => false end.
+Definition nsets (p : list cmd) : nat := length (filter is_aset p).
+Fixpoint rsets (l : list thread) : nat :=
+  match l with [] => 0 | th :: r => nsets (prog th) + rsets r end.
+Definition total_sets (progs : list (list cmd)) : nat := list_sum (map nsets progs).
+
+Lemma rsets_app a b : rsets (a ++ b) = rsets a + rsets b.
+Proof. induction a; cbn; lia. Qed.
+
+Lemma step_effs N t s s' evs :
+  effs s + rsets (thr s) <= N -> step t s = Some (s', evs) -> effs s' + rsets (thr s') <= N.
+Proof.
+  intros HN H. ostep H.
+  all: cbn [effs thr] in *; rewrite ?rsets_app in *; cbn [rsets prog] in *; unfold nsets in *; cbn [filter is_aset length] in *; lia.
+Qed.
+
+Lemma init_effs ready0 progs : effs (init ready0 progs) + rsets (thr (init ready0 progs)) <= total_sets progs.
+Proof.
+  unfold init, total_sets; cbn [effs thr]. induction progs as [|p l IH]; cbn [map rsets prog]; [cbn; lia|]. change (list_sum (nsets p :: map nsets l)) with (nsets p + list_sum (map nsets l)). lia.
+Qed.
+
+Lemma step_done_absorbing t s s' evs : s3v s = Done -> step t s = Some (s', evs) -> s3v s' = Done.
+Proof. intros Hd H. ostep H; cbn in *; congruence. Qed.
+
+Definition nexts (tr : list aev) : list (nat * bool) :=
+  flat_map (fun e => match e with ENext w b => [(w, b)] | _ => [] end) tr.
+
+Lemma nexts_map_eev l : nexts (map EEv l) = [].
+Proof. induction l; cbn; auto. Qed.
+
+Lemma step_results t s s' evs : step t s = Some (s', evs) -> results s' = rev (nexts evs) ++ results s.
+Proof.
+  intros H. ostep H; cbn [results]; rewrite ?nexts_map_eev; try reflexivity.
+  destruct fin as [[? ?]|]; reflexivity.
+Qed.
+
+(* once DONE, a completing next completes with done *)
+Lemma step_done_next ready0 W0 t s s' evs w0 b0 :
+  OInv ready0 W0 s -> s3v s = Done -> step t s = Some (s', evs) -> In (ENext w0 b0) evs -> b0 = false.
+Proof.
+  intros (O1 & O2 & O3 & O4 & O5) Hd H Hin. ostep H.
+  all: try (apply in_map_iff in Hin as (x & Hx & _); discriminate).
+  all: cbn in Hin; repeat (destruct Hin as [Hin|Hin]; try discriminate); try contradiction.
+  destruct fin as [[w1 b1]|]; cbn in Hin; [|contradiction].
+  destruct Hin as [Hin|[]]. injection Hin as -> ->.
+  destruct b0; [|reflexivity]. exfalso.
+  cbn [s3v thr] in *. rewrite pcount_app in O3. cbn in O3.
+  assert (X : Done = Unset) by (rewrite <- Hd; apply O3; lia). discriminate.
+Qed.
+
+Section Theorems.
+  Variables (ready0 : bool) (progs : list (list cmd)) (sched : list nat).
+  Hypothesis Hnd : NoDup (all_nexts progs).
+  Let c := run step sched (init ready0 progs, []).
+  Let s := fst c.
+  Let tr := snd c.
+
+  Lemma areach : AInv ready0 (all_nexts progs) s.
+  Proof. apply ainv_reachable. exact Hnd. Qed.
+
+  (* each set() is consumed by at most one next: the nexts completed with value never outnumber
+     the UNSET -> SET transitions (plus the initial state), which never outnumber the set() calls *)
+  Theorem set_consumed_at_most_once :
+    trues (results s) <= b2n ready0 + effs s /\ effs s <= total_sets progs.
+  Proof.
+    destruct areach as [(O1 & O2 & O3 & O4 & O5) _]. split; [lia|].
+    assert (H : effs s + rsets (thr s) <= total_sets progs).
+    { apply (run_invariant_state st nat aev step (fun s => effs s + rsets (thr s) <= total_sets progs)).
+      - intros s0 t s' evs H0 Hs. eapply step_effs; eauto.
+      - apply init_effs. }
+    lia.
+  Qed.
+
+  (* every next completes at most once, and only nexts of the programs complete *)
+  Theorem next_completes_once :
+    NoDup (map fst (results s)) /\ (forall w, In w (map fst (results s)) -> In w (all_nexts progs)) /\
+    nexts tr = rev (results s).
+  Proof.
+    destruct areach as [(O1 & O2 & O3 & O4 & O5) _]. pose proof (NoDup_cnt_le _ Hnd) as HW.
+    split; [|split].
+    - apply cnt_NoDup. intros w. specialize (O5 w). specialize (HW w). lia.
+    - intros w Hin. apply cnt_In in Hin. apply cnt_In. specialize (O5 w). lia.
+    - apply (run_invariant st nat aev step (fun c => nexts (snd c) = rev (results (fst c)))).
+      + intros c0 t s' evs H0 Hs. cbn [fst snd]. unfold nexts in *. rewrite flat_map_app.
+        fold (nexts evs). rewrite (step_results _ _ _ _ Hs), rev_app_distr, rev_involutive, H0. reflexivity.
+      + reflexivity.
+  Qed.
+
+  (* mutual exclusion, and the header's invariant whenever the mutex is free *)
+  Theorem mutex_and_flag :
+    pcount holds (thr s) <= 1 /\ (mtx s = None -> flag_ok s).
+  Proof.
+    destruct areach as [(O1 & _) (_ & _ & _ & _ & Hfl)]. split.
+    - destruct (mtx s); lia.
+    - intros Hm. rewrite Hm in O1. apply Hfl. pose proof (pcount_special_le (thr s)). lia.
+  Qed.
+
+  (* a state where nothing can move: every thread has finished, except nexts suspended on the
+     stack of an UNSET event (so no next is left behind once the event is SET or DONE) *)
+  Theorem only_unset_blocks :
+    (forall t, step t s = None) ->
+    mtx s = None /\
+    forall t th, nth_error (thr s) t = Some th ->
+      th_fin th = true \/
+      exists w, apc th = ASusp w /\ In w (E.stk (ev s)) /\ ~ In w (E.resumed (ev s)) /\ s3v s = Unset.
+  Proof. apply (terminal_shape ready0 (all_nexts progs)); [apply NoDup_cnt_le; exact Hnd|exact areach]. Qed.
+
+  Theorem done_next_is_done : forall t s' evs w b,
+    s3v s = Done -> step t s = Some (s', evs) -> In (ENext w b) evs -> b = false.
+  Proof. intros. destruct areach as [HO _]. eapply step_done_next; eauto. Qed.
+End Theorems.
+
+(* DONE is permanent *)
+Theorem done_absorbing ready0 progs sched1 sched2 :
+  s3v (fst (run step sched1 (init ready0 progs, []))) = Done ->
+  s3v (fst (run step (sched1 ++ sched2) (init ready0 progs, []))) = Done.
+Proof.
+  intros H. rewrite run_app.
+  apply (run_invariant_state st nat aev step (fun s => s3v s = Done)); [|exact H].
+  intros s0 t s' evs H0 Hs. eapply step_done_absorbing; eauto.
+Qed.
+
+Definition no_set_done (progs : list (list cmd)) : bool :=
+  forallb (forallb (fun c => match c with ASetDone => false | _ => true end)) progs.
+
+(* With two concurrent consumers the property "a next completes done only if the event is DONE"
+   FAILS: one set() resumes both waits; the first try_reset turns SET into UNSET and returns
+   true; the second finds UNSET, returns false, and its next-sender completes with done although
+   set_done() is never called (in a debug build UNIFEX_ASSERT(state_ == DONE) fires). *)
+Theorem spurious_done_refuted :
+  exists progs sched,
+    NoDup (all_nexts progs) /\ no_set_done progs = true /\
+    let s := fst (run step sched (init false progs, [])) in
+    In (1, false) (results s) /\ s3v s = Unset /\ quiescent s = true.
+Proof.
+  exists [[ANext 0]; [ANext 1]; [ASet]], [0; 0; 1; 1; 2; 2; 2; 2; 2; 0; 0; 0; 1; 1].
+  split; [|split; [reflexivity|]].
+  - cbn. repeat constructor; cbn; intuition congruence.
+  - vm_compute. repeat split; auto.
+Qed.
